@@ -142,6 +142,67 @@ impl<I: Index> SimpleTermIndex<I> {
     }
 }
 
+#[cfg(feature = "verif_hooks")]
+impl<I: Index> SimpleTermIndex<I> {
+    /// Verification hook (only with feature `verif_hooks`): self-containment audit.
+    ///
+    /// Returns every index `i` such that some *borrowed* string inside `i2t[i]`
+    /// does not point into the corresponding string of the key that
+    /// *this struct's own* `t2i` maps to `i`
+    /// (or such that no key, or a key of a different shape, maps to `i`).
+    /// An empty result means that `i2t` only borrows from `self.t2i`.
+    pub fn verif_audit(&self) -> Vec<usize> {
+        use sophia_api::MownStr;
+
+        fn inside(b: &MownStr, k: &MownStr) -> bool {
+            if b.is_owned() {
+                return true; // owned data can not dangle
+            }
+            let (bp, bl) = (b.as_ptr() as usize, b.len());
+            let (kp, kl) = (k.as_ptr() as usize, k.len());
+            bp >= kp && bp + bl <= kp + kl
+        }
+        fn contained(t: &SimpleTerm<'_>, k: &SimpleTerm<'_>) -> bool {
+            match (t, k) {
+                (SimpleTerm::Iri(t), SimpleTerm::Iri(k)) => inside(t, k),
+                (SimpleTerm::BlankNode(t), SimpleTerm::BlankNode(k)) => inside(t, k),
+                (SimpleTerm::Variable(t), SimpleTerm::Variable(k)) => inside(t, k),
+                (SimpleTerm::LiteralDatatype(tl, td), SimpleTerm::LiteralDatatype(kl, kd)) => {
+                    inside(tl, kl) && inside(td, kd)
+                }
+                (SimpleTerm::LiteralLanguage(tl, tt), SimpleTerm::LiteralLanguage(kl, kt)) => {
+                    inside(tl, kl) && inside(tt, kt)
+                }
+                (SimpleTerm::Triple(t), SimpleTerm::Triple(k)) => {
+                    t.iter().zip(k.iter()).all(|(t, k)| contained(t, k))
+                }
+                _ => false,
+            }
+        }
+
+        let mut key_of: Vec<Option<&SimpleTerm<'static>>> = vec![None; self.i2t.len()];
+        let mut bad = std::collections::BTreeSet::new();
+        for (k, i) in &self.t2i {
+            let i = i.into_usize();
+            match key_of.get_mut(i) {
+                Some(slot) if slot.is_none() => *slot = Some(k),
+                _ => {
+                    bad.insert(i);
+                }
+            }
+        }
+        for (i, t) in self.i2t.iter().enumerate() {
+            match key_of[i] {
+                Some(k) if contained(t, k) => (),
+                _ => {
+                    bad.insert(i);
+                }
+            }
+        }
+        bad.into_iter().collect()
+    }
+}
+
 impl<I: Index> TermIndex for SimpleTermIndex<I> {
     type Term = SimpleTerm<'static>;
     type Index = I;
